@@ -293,6 +293,31 @@ def run(ctx):
                                    "why": "a YAML stream of %d documents (boundary spelling: %s) does not evaluate to those documents: rc=%d %s got %s; PyYAML reads %s"
                                           % (len(docs), name, rc, err[-150:], hist.short(got), hist.short(ref)),
                                    "yaml": text, "boundary": name, "class": "c04-yaml-stream-boundary"})
+    # the same layer read from a file and from standard input (-.<ext>): the result depends on the content only
+    sjobs = []
+    for ci, layers in enumerate(contents[: ctx.n(40, 600)]):
+        for f in ("json", "yaml", "toml"):
+            docs = layers[0]
+            if f == "toml" and not all(gen.toml_ok(x) for x in docs):
+                continue
+            sjobs.append((ci, f, gen.emit(f, docs, None)))
+
+    def stdin_one(j):
+        ci, f, text = sjobs[j]
+        sd = os.path.join(ctx.work, "stdin%d" % j)
+        os.makedirs(sd, exist_ok=True)
+        open(os.path.join(sd, "only." + f), "w").write(text)
+        a = core.cli(os.path.join(ctx.bindir, "bkl"), ["-f", "json", "only." + f], sd)
+        b = core.cli(os.path.join(ctx.bindir, "bkl"), ["-f", "json", "--", "-." + f], sd, inp=text.encode("utf-8"))
+        shutil.rmtree(sd, ignore_errors=True)
+        return a, b
+    sres = core.pmap(stdin_one, range(len(sjobs)))
+    dist["file_vs_stdin"] = len(sjobs)
+    for (ci, f, text), (a, b) in zip(sjobs, sres):
+        if (a[0], a[1]) != (b[0], b[1]) and len([v for v in ctx.violations if v.get("class") == "c04-stdin"]) < 2:
+            ctx.violations.append({"name": "stdin-%d-%s" % (ci, f), "property": "C04", "kind": "failing-input",
+                                   "why": "the same %s text gives rc %d %r from a file and rc %d %r from standard input (%s)" % (f, a[0], a[1][:150], b[0], b[1][:150], b[2][-150:]),
+                                   "text": text, "class": "c04-stdin"})
     ny = ynode_pass(ctx, rng.fork("ynodes"), ctx.n(150, 4000), dist)
     ny += normalize_pass(ctx, contents, rng.fork("norm"), dist)
     return {"evaluations": len(jobs) * 2 + len(ycases) + len(scases) + ny, "distinct_nontrivial": nt, "rule": RULE, "samples": [core.to_jsonable(c) for c in contents[:1]],
